@@ -68,9 +68,10 @@ def generate(seed, tier):
             a = rng.choice([0.0, -swing / 2])
             alpha = 10 ** rng.uniform(-3, -2.5)
         ops.append({"op": "case", "sps": sps, "R": rng.choice([1e9, 10e9, 2.5e9]), "nslots": rng.choice([64, 96, 128]),
-                    "pattern": rng.choice(["random", "random", "prbs", "blocks"]), "bseed": rng.getrandbits(31),
+                    "pattern": rng.choice(["random", "random", "prbs", "blocks", "sparse", "dense"]),
+                    "bseed": rng.getrandbits(31),
                     "a": a, "swing": swing, "bwf": rng.uniform(0.7, 1.0), "sigma": rng.uniform(0.005, 0.05),
-                    "nseed": rng.getrandbits(31), "form": rng.choice(["es_noise", "es", "arr"]),
+                    "nseed": rng.getrandbits(31), "form": rng.choice(["es_noise", "es", "arr", "es_noise", "es_c", "arr_c"]),
                     "seeds": [rng.getrandbits(31) for _ in range(2 if tier == "quick" else 3)],
                     "alpha": alpha, "beta": rng.choice([0.0, rng.uniform(-10, 10) * alpha * swing])})
     return {}, ops
@@ -93,6 +94,8 @@ def _bits(op):
     n = op["nslots"]
     if op["pattern"] == "random":
         b = rs.randint(0, 2, n)
+    elif op["pattern"] in ("sparse", "dense"):      # unbalanced mark density (30 % / 70 %), still random
+        b = (rs.rand(n) < (0.3 if op["pattern"] == "sparse" else 0.7)).astype(int)
     elif op["pattern"] == "prbs":
         st = (op["bseed"] % 127) or 1
         b = np.zeros(n, dtype=int)
@@ -131,6 +134,10 @@ class Bench:
     def _estimate(self, clean, noise, form, seed):
         if form == "es_noise":
             arg = self.E(clean.copy(), noise.copy())
+        elif form == "es_c":          # complex-typed container with zero imaginary part (e.g. after an FFT-based block)
+            arg = self.E(clean.astype(complex), noise.astype(complex))
+        elif form == "arr_c":
+            arg = (clean + noise).astype(complex)
         elif form == "es":
             arg = self.E(clean + noise)
         else:
